@@ -184,6 +184,17 @@ def handleMon (j : Json) : R Json := do
       let f ← floatOfBits (← x.getStr?)
       pure (weq (sw fops b f) f))
     pure (jBool (ok.all id))
+  | "swmap" => do
+    -- the documented per-weight pipeline (clamp, NaN ↦ in-bounds value nearest 0.0, round6, ε-prune)
+    -- applied by Lean to the *input* weight must give the weight the implementation wrote / restored
+    let b ← decBounds j
+    let ps ← fldArr j "pairs"
+    let ok ← ps.toList.mapM (fun p => do
+      let a ← p.getArr?
+      let x ← floatOfBits (← strAt a 0)
+      let y ← floatOfBits (← strAt a 1)
+      pure (weq (sw fops b x) y))
+    pure (jBool (ok.all id))
   | _ => throw s!"bad monitor {k}"
 
 /-- the `.meta` sidecar of a write whose clock reads `created` (one per entry) -/
